@@ -119,6 +119,25 @@ type observer struct {
 	lastFrom gen.PID
 	lastRef  gen.Ref
 	gotCall  atomic.Int32
+	// re-arm family: called inside the handler of every exit/down message; results of the
+	// requests it makes are appended to rearms
+	onNotif func(p *actors.Probe, n notif)
+	rearms  []rearmLog
+}
+
+type rearmLog struct {
+	Op   string
+	Key  relKey
+	Err  error
+	L    int64 // logical clock when the request returned
+	OnL  int64 // logical clock of the notification that triggered it
+	DurU int64 // microseconds
+}
+
+func (o *observer) rearmResults() []rearmLog {
+	o.mu.Lock()
+	defer o.mu.Unlock()
+	return append([]rearmLog(nil), o.rearms...)
 }
 
 func (o *observer) notifs() []notif {
@@ -133,11 +152,15 @@ func (o *observer) others() []string {
 	return append([]string(nil), o.other...)
 }
 
-func (o *observer) add(n notif) {
+func (o *observer) add(p *actors.Probe, n notif) {
 	n.L = hk.Tick()
 	o.mu.Lock()
 	o.log = append(o.log, n)
 	o.mu.Unlock()
+	if o.onNotif != nil {
+		// re-arming watchers act from inside the handler of the notification
+		o.onNotif(p, n)
+	}
 }
 
 func (o *observer) count(k relKey) int {
@@ -260,25 +283,25 @@ func observerFactory(o *observer) gen.ProcessFactory {
 				m.F(p)
 				close(m.Done)
 			case gen.MessageExitPID:
-				o.add(notif{Kind: "exit", Target: m.PID, Reason: m.Reason, From: from})
+				o.add(p, notif{Kind: "exit", Target: m.PID, Reason: m.Reason, From: from})
 			case gen.MessageExitProcessID:
-				o.add(notif{Kind: "exit", Target: m.ProcessID, Reason: m.Reason, From: from})
+				o.add(p, notif{Kind: "exit", Target: m.ProcessID, Reason: m.Reason, From: from})
 			case gen.MessageExitAlias:
-				o.add(notif{Kind: "exit", Target: m.Alias, Reason: m.Reason, From: from})
+				o.add(p, notif{Kind: "exit", Target: m.Alias, Reason: m.Reason, From: from})
 			case gen.MessageExitEvent:
-				o.add(notif{Kind: "exit", Target: m.Event, Reason: m.Reason, From: from})
+				o.add(p, notif{Kind: "exit", Target: m.Event, Reason: m.Reason, From: from})
 			case gen.MessageExitNode:
-				o.add(notif{Kind: "exit", Target: m.Name, From: from})
+				o.add(p, notif{Kind: "exit", Target: m.Name, From: from})
 			case gen.MessageDownPID:
-				o.add(notif{Kind: "down", Target: m.PID, Reason: m.Reason, From: from})
+				o.add(p, notif{Kind: "down", Target: m.PID, Reason: m.Reason, From: from})
 			case gen.MessageDownProcessID:
-				o.add(notif{Kind: "down", Target: m.ProcessID, Reason: m.Reason, From: from})
+				o.add(p, notif{Kind: "down", Target: m.ProcessID, Reason: m.Reason, From: from})
 			case gen.MessageDownAlias:
-				o.add(notif{Kind: "down", Target: m.Alias, Reason: m.Reason, From: from})
+				o.add(p, notif{Kind: "down", Target: m.Alias, Reason: m.Reason, From: from})
 			case gen.MessageDownEvent:
-				o.add(notif{Kind: "down", Target: m.Event, Reason: m.Reason, From: from})
+				o.add(p, notif{Kind: "down", Target: m.Event, Reason: m.Reason, From: from})
 			case gen.MessageDownNode:
-				o.add(notif{Kind: "down", Target: m.Name, From: from})
+				o.add(p, notif{Kind: "down", Target: m.Name, From: from})
 			default:
 				o.mu.Lock()
 				o.other = append(o.other, fmt.Sprintf("%T %v from %s", msg, msg, from))
